@@ -75,6 +75,7 @@ FEATURES = [
     F("import-two-levels", ["mid.bitproto", "leaf.bitproto"], IMPORTS='import "mid.bitproto"', BOX_EXTRA="    mid.Mid mm = 14"),
     F("import-diamond", ["d1.bitproto", "d2.bitproto", "common.bitproto"], ["transitive_import_alias"], IMPORTS='import "d1.bitproto"\nimport "d2.bitproto"\nimport "common.bitproto"',
       BOX_EXTRA="    d1.One one = 64\n    d2.Two two = 65\n    common.Base own = 66\n    common.Unit[2] units = 67"),
+    F("import-transitive-reference", ["mid.bitproto", "leaf.bitproto"], ["transitive_dotted_reference"], IMPORTS='import md "mid.bitproto"', BOX_EXTRA="    md.leaf.Leaf tl = 68\n    md.Mid mm2 = 69"),
     F("import-only-constants", ["konst.bitproto"], ["import_only_constants"], IMPORTS='import "konst.bitproto"', CONSTS="const FROM_IMPORT = konst.KK + 1"),
     F("nested-in-imported", ["zoo.bitproto"], IMPORTS='import "zoo.bitproto"', BOX_EXTRA="    zoo.Zoo.Monkey mk = 15\n    zoo.Zoo.Food[2] foods = 28"),
     F("c-name-prefix", OPTIONS='option c.name_prefix = "my_"'),
@@ -113,7 +114,7 @@ FEATURES = [
     F("message-named-like-import", ["shared.bitproto"], DEFS="message Holder {\n    message shared {\n        bool inner = 1\n    }\n    shared sh = 1\n}", tags=["lowercase_message_name"]),
 ]
 FEATURE_INDEX = {f["name"]: k for k, f in enumerate(FEATURES)}
-EXCLUSIVE = [{"packing-1", "packing-4"}, {"import-plain", "message-named-like-import"}]
+EXCLUSIVE = [{"packing-1", "packing-4"}, {"import-plain", "message-named-like-import"}, {"import-two-levels", "import-transitive-reference"}]
 
 
 def combos(tier):
@@ -183,7 +184,7 @@ def check_c(d, files, optimize, filt, out_problem, endian="both"):
     gen = os.path.join(d, "gen_c%s%s" % ("_O" if optimize else "", ("_F" + filt) if filt else ""))
     os.makedirs(gen, exist_ok=True)
     try:
-        texts = render_c_files(os.path.join(d, "t.bitproto"), gen, optimize=optimize, endian=endian, filter_messages=[filt] if filt else None)
+        texts = render_c_files(os.path.join(d, "t.bitproto"), gen, optimize=optimize, endian=endian, filter_messages=[filt] if filt else None, lint=True)  # lint first, as the command line does by default
     except Exception as e:
         out_problem("render-c", type(e).__name__, repo_site(e), exc_summary(e))
         return
@@ -260,7 +261,7 @@ def check_py(d, files, out_problem):
     gen = os.path.join(d, "gen_py")
     os.makedirs(gen, exist_ok=True)
     try:
-        texts, _ = render_all_files(os.path.join(d, "t.bitproto"), "py", gen)
+        texts, _ = render_all_files(os.path.join(d, "t.bitproto"), "py", gen, lint=True)
     except Exception as e:
         out_problem("render-py", type(e).__name__, repo_site(e), exc_summary(e))
         return
@@ -311,6 +312,8 @@ def check_go(d, files, out_problem, optimize=False):
             p = parse_file(path, traditional_mode=optimize)
         for _, child in p.protos(recursive=False):
             rec(child.filepath)
+        from ..pyback import lint_quietly
+        lint_quietly(p)  # as the command line does by default
         r = renderer_classes("go")[0](p, outdir=d, **(dict(optimization_mode=True) if optimize else {}))
         outputs[r.out_filename] = r.render_string()
         options[r.out_filename] = p.get_option_as_string_or_raise("go.package_path")
